@@ -27,6 +27,7 @@ func runC05(c *core.Ctx) {
 	h.setterPersistThenPublish("C05.2a persist-then-publish", "raft:(*storage).setTerm", ">")
 	h.setterPersistThenPublish("C05.2a persist-then-publish", "raft:(*storage).setVotedFor", ">=")
 	h.valueSetOrder("C05.2b value.set order")
+	h.syncDirSyncs("C05.2c syncDir")
 	c.Clause("C05.3 sole writers of storage.term/votedFor and sole callers of termVal.set")
 	h.termVoteWriters("C05.3 sole-writers")
 	c.Clause("C05.4 reply produced after the durable write; failed persist => unexpectedErr")
